@@ -536,7 +536,7 @@ def main(argv):
             i += 2
         else:
             i += 1
-    if tier not in ("quick", "thorough"):
+    if tier not in ("quick", "thorough", "attempt"):
         tier = "quick"
     try:
         seed = int(os.environ.get("VERIF_SEED", "0"))
@@ -773,7 +773,7 @@ def handle_failure(pid, r, known, replay_dir, logdir, known_hits):
 
 
 def write_evidence(pid, tier, seed, spec, results, wall, violations, note=None):
-    if ALT_REPO:
+    if ALT_REPO or tier == "attempt":
         return  # experiments never touch the committed evidence
     os.makedirs(os.path.join(VERIF, "evidence"), exist_ok=True)
     witnesses = [r for r in results if r.ob.get("expect_fail")]
